@@ -21,7 +21,7 @@ Definition full_scope (extra : list string) (l : list fcase) : list string :=
 (* one decoration (a function, or the methods of a class in class-dict order):
      outcome of the whole decoration, -1,
      per function: applies, consistent (spec), sig_ok, scope_ok, ctx_covers, doc_typed, doc_evaluable,
-                   no "typing." text, doc_wf, outcome of decorating that function alone, -2          *)
+                   no "typing." text, doc_wf, no_hiding, outcome of decorating that function alone, -2          *)
 Definition eval_case (extra : list string) (l : list fcase) : list Z :=
   let scope := full_scope extra l in
   enc (decorate_all docstring_prog l) ++ [-1] ++
@@ -34,7 +34,8 @@ Definition eval_case (extra : list string) (l : list fcase) : list Z :=
       b2z (doc_typed (f_doc fc));
       b2z (doc_evaluable scope (f_doc fc));
       b2z (doc_no_typing_dot (f_doc fc));
-      b2z (doc_wf (f_doc fc)) ]
+      b2z (doc_wf (f_doc fc));
+      b2z (no_hiding scope) ]
     ++ enc (decorate docstring_prog fc) ++ [-2]) l.
 
 (* ---- the typing model alone: eval(text, globals(), context) and == ------------------------------- *)
